@@ -166,15 +166,32 @@ static Case draw() {
         const char *d = "0123456789abcdefABCDEF";
         for (int i = 0; i < n; i++) c.text += d[ri(0, 21)];
     } else {
-        // must-reject: empty, or first char printable and not hex / space / sign
-        int n = ri(0, 6);
-        for (int i = 0; i < n; i++) {
-            char ch;
-            if (i == 0) {
-                do { ch = (char)ri(33, 126); } while (hexval(ch) >= 0 || ch == '+' || ch == '-');
-            } else
-                ch = (char)ri(1, 255);
-            c.text += ch;
+        // must-reject: no hexadecimal digit where the number would have to start. scanf-style parsing may skip white space and accept
+        // one sign; after that, the end of the text or any non-hex byte means "does not start with a hexadecimal number".
+        static const char WS[] = {' ', '\t', '\n', '\v', '\f', '\r'};
+        int shape = rpick({3, 2, 2});
+        if (shape == 0) {  // first char printable and neither hex, space nor sign (or the empty string)
+            int n = ri(0, 6);
+            for (int i = 0; i < n; i++) {
+                char ch;
+                if (i == 0) {
+                    do { ch = (char)ri(33, 126); } while (hexval(ch) >= 0 || ch == '+' || ch == '-');
+                } else
+                    ch = (char)ri(1, 255);
+                c.text += ch;
+            }
+        } else {  // white space* sign? then end of text or a non-hex byte, then anything
+            int nws = shape == 1 ? ri(1, 4) : ri(0, 2);
+            for (int i = 0; i < nws; i++) c.text += WS[ri(0, 5)];
+            bool sign = shape == 2 || rbool();
+            if (sign) c.text += rbool() ? '+' : '-';
+            if (rpick({1, 2})) {
+                char ch;
+                do { ch = (char)ri(1, 255); } while (hexval(ch) >= 0 || (!sign && (ch == '+' || ch == '-' || strchr(" \t\n\v\f\r", ch))));
+                c.text += ch;
+                int n = ri(0, 4);
+                for (int i = 0; i < n; i++) c.text += (char)ri(1, 255);
+            }
         }
     }
     return c;
@@ -191,6 +208,14 @@ static void enumerate(const std::string &tier, int shard, int nshards, const std
         Case x;
         for (int e : ERRS)
             for (uint64_t v : XV) { x.kind = 0; x.v = v; x.sz = 17; x.err = e; E(x); }
+    }
+    {   // every (white space, sign) prefix of length <= 2 followed by the end of the text or one non-hex character: must be rejected
+        static const char *PRE[] = {" ", "\t", "\n", "\r", "\v", "\f", "+", "-", " +", " -", "\t-", "\n+", "  ", " \t"};
+        static const char *TAIL[] = {"", "z", "g", "*", "x", "G", ".", "_", "\x80"};
+        Case x;
+        x.kind = 2;
+        for (const char *p : PRE)
+            for (const char *t : TAIL) { x.text = std::string(p) + t; E(x); }
     }
     Case c;
     c.kind = 0;
